@@ -4,7 +4,7 @@ ENGINES = [
      "kind_free_text": "seeded EVM/state simulation through the real core.ApplyTransaction: grammar-built contract DAGs, every frame 'crashed' by gas cut at each recorded interpreter step / REVERT / INVALID, world digest vs deep-copy model; block batch on a drawn storage engine"},
     {"name": "S4-poolsim", "path": "/verif/sim/poolsim", "serves_properties": ["C19"],
      "kind_free_text": "controlled-scheduler simulation of the real TxPool: tx_pool.go is AST-rewritten at build time (tools/rewrite) so that every lock, channel op, select, go statement, ticker, clock read and pool-map range is a scheduler decision drawn from the tape; real goroutines, one runnable at a time, inside a synctest bubble; optional -race build"},
-    {"name": "S5-chainsim", "path": "/verif/sim/chainsim", "serves_properties": ["C01", "C04", "C06", "C07", "C08", "C09", "C10", "C11", "C13", "C14", "C16", "C20"],
+    {"name": "S5-chainsim", "path": "/verif/sim/chainsim", "serves_properties": ["C01", "C03", "C04", "C06", "C07", "C08", "C09", "C10", "C11", "C13", "C14", "C16", "C20"],
      "kind_free_text": "whole-node deterministic simulation: three real core.Core (prime/region/zone) in one synctest bubble; seeded scheduler owns mining, head selection (forks/reorgs), delivery, storage (SimDisk) and the worker refresh; rapid tape = replay"},
     {"name": "S2-triesim", "path": "/verif/sim/triesim", "serves_properties": ["C18"],
      "kind_free_text": "seeded trie histories with restart / crash-at-write-prefix / proof-corruption faults against a map model with per-root snapshots"},
@@ -131,5 +131,11 @@ META = {
         "technique": "deterministic whole-node simulation; codec round-trip monitors on every object that crosses the simulated wire, the databases and the JSON-RPC form",
         "text": "Exploration over the objects real runs produce (all transaction kinds, all block views, all three contexts): wire, disk and JSON round trips preserve hash, content and bytes; rewritten blocks never collide with the honest hash.",
         "note": "Four JSON defects found and repaired (one fix commit). Objects not produced by runs are not covered.",
+    },
+    "C03": {
+        "engine": "S5-chainsim", "design_ref": "DESIGN.md section 4 C03",
+        "technique": "deterministic whole-node simulation; in-flight rewriting of every client-signed transaction (single signed field / signature value / chain id) checked against sender recovery, the live pool and the node's Qi validation",
+        "text": "Exploration over the transactions real runs sign: no single-field rewrite, signature edge value or foreign chain id keeps the original sender; the sender cache is chain-id safe; Qi transactions are bound to their inputs, outputs, data and chain id.",
+        "note": "The signature algebra itself is a pure function and is only sampled; stated in the evidence.",
     },
 }
